@@ -122,7 +122,7 @@ def specStep (env : Env) (s : Spec) : Event → Spec × Want
      | [] => (s, .noRaise)
      | sv :: rest =>
        ({ active := sv.active, mocked := sv.mocked, config := sv.config, stack := rest },
-        match k with | .normal => .noRaise | .exn => .raises))
+        match k with | .normal => .noRaise | _ => .raises))
   | .userImport f =>
     (match s.active with
      | some e => (s, match expectedImport e f with | some o => .obj o | none => .any)
@@ -204,9 +204,19 @@ def stateMeets (s : Spec) (st : State) : Bool :=
 
 /-! ### named scope hypotheses (decidable on the event list and the environment) -/
 
-def Event.isExnExit : Event → Bool
-  | .ctxExit .exn => true
+/-- does leaving the block in this way run `deactivate()` (in the handler / else / finally that applies)? -/
+def exitCleansUp (k : ExitKind) : Bool := (exitSegment ctxIR k ++ ctxIR.fin).contains .deactivate
+
+def Event.uncleanExit : Event → Bool
+  | .ctxExit k => !exitCleansUp k
   | _ => false
+
+/-- is the configuration cleared even when a re-import raises?  (cleared first, or everything caught) -/
+def deactGuarded : List DeactStep → Bool
+  | [] => true
+  | .clearConfig :: _ => true
+  | .reimportCollected c :: rest => (c.contains .exception || c.contains .baseException) && deactGuarded rest
+  | _ :: rest => deactGuarded rest
 
 def Event.isEngineActivation : Event → Bool
   | .activate (some _) _ _ => true
@@ -269,10 +279,11 @@ def sessionCount : List Event → Nat
   | .sessionCreate :: rest => sessionCount rest + 1
   | _ :: rest => sessionCount rest
 
-def H_ctxFinally (evs : List Event) : Bool := ctxIR.fin.contains .deactivate || !(evs.any Event.isExnExit)
+def H_ctxFinally (evs : List Event) : Bool := !(evs.any Event.uncleanExit)
 def H_functionsRebound (env : Env) (evs : List Event) : Bool := preimportFunctions || noActivationAfterFunctions env evs
 def H_ctxNotNested (env : Env) (evs : List Event) : Bool := ctxNotNested env Spec.init evs
-def H_realImportsOk (env : Env) (evs : List Event) : Bool := env.real.all (·.raises.isNone) || !(evs.any Event.deactivates)
+def H_realImportsOk (env : Env) (evs : List Event) : Bool :=
+  deactGuarded deactSteps || env.real.all (·.raises.isNone) || !(evs.any Event.deactivates)
 def H_sessionSingleton (evs : List Event) : Bool := sessionCount evs ≤ 1
 def H_knownEngine (evs : List Event) : Bool := !(evs.any Event.unknownEngine)
 def H_noBareReactivation (env : Env) (evs : List Event) : Bool := noBareReactivation env Spec.init evs
